@@ -20,7 +20,11 @@ LEVEL = "exploration"
 RULE = (
   "case=(kind,seed,integrator): generated tree (free/ball/hinge/slide, springs, dampers, tendons, actuators with activation "
   "dynamics, sensors incl. acceleration-stage ones; 'soft' adds limits/equalities/frictionloss; 'contact' = free bodies on a "
-  "plane with collisions on) or a repository model; 3 worlds with different random states and non-zero warmstart; "
+  "plane with collisions on; 'forest' = 2..6 kinematic trees in random order whose inertia blocks are of different kinds - "
+  "diagonal blocks of centred free/ball bodies and lone joints placed after other trees, fully coupled small trees, "
+  "branching / 7..9-dof trees, a 67-dof tree - free bodies resting on a plane, narrow joint limits, CG or Newton solver, "
+  "Data from make_data / reset_data / put_data of a never-forwarded MjData so that no derived field is pre-computed) "
+  "or a repository model; 3 worlds with different random states and non-zero warmstart; "
   "trajectories of 3 steps. Non-trivial: nv>=2 and all three oracles evaluated; distinct by hash(xml, integrator, states)."
 )
 ASSUMPTIONS = [
@@ -65,6 +69,7 @@ P_SOFT = gen.profile(
   p_limit=0.6,
   p_frictionloss=0.3,
   equality=2,
+  solvers=("Newton", "CG"),
   actuators=2,
   act_kinds=("motor", "position", "general"),
   act_ball=False,
@@ -78,6 +83,7 @@ P_CONTACT = gen.profile(
   p_plane=1.0,
   collide=True,
   contact_rich=True,
+  solvers=("Newton", "CG"),
   geoms=("sphere", "capsule", "box", "ellipsoid"),
   condims=(1, 3, 4, 6),
   cones=("pyramidal", "elliptic"),
@@ -91,13 +97,239 @@ P_CONTACT = gen.profile(
 REPO_MODELS = ["pendula.xml", "humanoid/humanoid.xml", "constraints.xml", "actuation/actuators.xml", "collision.xml", "tendon/wrap.xml"]
 
 STATE_KEYS = ("time", "qpos", "qvel", "act", "qacc_warmstart", "ctrl", "qfrc_applied", "xfrc_applied", "eq_active", "mocap_pos", "mocap_quat", "userdata")
-TRAJ_KEYS = ("qpos", "qvel", "act", "time", "qacc_warmstart", "qacc", "qacc_smooth", "qfrc_constraint", "qfrc_smooth", "actuator_force", "act_dot", "sensordata", "energy", "nefc", "ne", "nf", "nl")
+TRAJ_KEYS = ("qpos", "qvel", "act", "time", "qacc_warmstart", "qacc", "qacc_smooth", "qfrc_constraint", "qfrc_smooth", "actuator_force", "act_dot", "sensordata", "energy", "nefc", "ne", "nf", "nl", "qLD", "qLDiagInv")
 EFC_KEYS = ("type", "id", "pos", "D", "aref", "force", "state")
+
+
+# ---------------------------------------------------------------------------------------------- forest family
+# Several kinematic trees in random order, so that the inertia matrix has diagonal blocks of several kinds that start at
+# arbitrary dof addresses: 'compact' (purely diagonal block of a MuJoCo "simple" body: centred free / ball body, lone
+# hinge / slide), 'triangular' (fully coupled tree of <= 6 dofs), 'tile' (branching tree or 7..64 dofs) and 'sparse'
+# (> 64 dofs).  Free bodies rest on a plane, joints have narrow limits, the solver is CG (consumes the stored inertia
+# factorisation as its preconditioner) or Newton, and the Data comes from make_data / reset_data / put_data of an MjData
+# that never went through mj_forward: every derived field (qLD, qLDiagInv, ...) starts at zero or stale.
+FOREST_INTEGRATORS = ("Euler", "implicitfast", "implicit", "Euler", "implicitfast", "implicit", "RK4")
+FOREST_DATA = ("make", "make", "reset", "put_raw")
+FOREST_TREES = ("cfree", "cfree", "cfree", "cball", "c1", "ofree", "chain", "chain", "branch", "long")
+
+
+def _fmt(x):
+  return " ".join(f"{float(v):.6g}" for v in np.atleast_1d(x))
+
+
+def _centred_geom(rng, name, collide):
+  """a geom whose inertia frame coincides with the body frame: the body stays 'simple' (diagonal inertia block)."""
+  t = ("sphere", "box", "ellipsoid", "capsule", "cylinder")[rng.integers(5)]
+  s = rng.uniform(0.06, 0.14, size=3)
+  size = {"sphere": s[:1], "box": s, "ellipsoid": s, "capsule": s[:2], "cylinder": s[:2]}[t]
+  low = {"sphere": s[0], "box": s[2], "ellipsoid": s[2], "capsule": s[0] + s[1], "cylinder": s[1]}[t]
+  mass = f'mass="{_fmt(rng.uniform(0.3, 3.0))}"' if rng.random() < 0.5 else f'density="{_fmt(rng.uniform(300, 2500))}"'
+  con = _contact_attrs(rng) if collide else 'contype="0" conaffinity="0"'
+  return f'<geom name="{name}" type="{t}" size="{_fmt(size)}" {mass} {con}/>', float(low)
+
+
+def _contact_attrs(rng):
+  a = f'condim="{(1, 3, 3, 4, 6)[rng.integers(5)]}"'
+  if rng.random() < 0.5:
+    a += f' friction="{_fmt([rng.uniform(0.3, 1.2), rng.uniform(0.002, 0.02), rng.uniform(0.0001, 0.005)])}"'
+  return a
+
+
+def _limited_joint(rng, name, jt=None, axis=None):
+  jt = jt or ("hinge", "hinge", "slide")[rng.integers(3)]
+  ax = axis if axis is not None else rng.normal(size=3)
+  ax = np.asarray(ax, dtype=float) / np.linalg.norm(ax)
+  a = f'<joint name="{name}" type="{jt}" axis="{_fmt(ax)}"'
+  if rng.random() < 0.7:
+    # narrow range around the reference pose: the limit is active or about to be for the sampled states
+    lo, hi = sorted(rng.uniform(-0.03, 0.03, size=2))
+    if jt == "hinge":
+      lo, hi = np.degrees(lo), np.degrees(hi)
+    a += f' limited="true" range="{_fmt([lo, hi + 1e-3])}"'
+  if rng.random() < 0.5:
+    a += f' damping="{_fmt(rng.uniform(0.05, 1.0))}"'
+  if rng.random() < 0.4:
+    a += f' armature="{_fmt(rng.uniform(0.01, 0.2))}"'
+  if rng.random() < 0.3:
+    a += f' stiffness="{_fmt(rng.uniform(1, 30))}"'
+  return a + "/>"
+
+
+def _link_geom(rng, name):
+  return f'<geom name="{name}" type="capsule" size="{_fmt(rng.uniform(0.02, 0.04))}" fromto="0 0 0 {_fmt(rng.uniform(0.1, 0.2))} 0 0" density="{_fmt(rng.uniform(400, 1500))}" contype="0" conaffinity="0"/>'
+
+
+def forest_xml(seed, integrator, with_big):
+  """-> (xml, list of tree kinds in dof order)."""
+  rng = np.random.default_rng([int(seed), 0xF07E])
+  ntree = int(rng.integers(2, 6))
+  kinds = [FOREST_TREES[rng.integers(len(FOREST_TREES))] for _ in range(ntree)]
+  if not any(k in ("cfree", "cball", "c1") for k in kinds[1:]):
+    kinds[int(rng.integers(1, ntree))] = "cfree"  # a compact block that does not start at dof 0
+  if with_big:
+    kinds.insert(int(rng.integers(0, len(kinds))), "big")
+  solver = "CG" if rng.random() < 0.7 else "Newton"
+  cone = ("pyramidal", "elliptic")[rng.integers(2)]
+  ts = (0.002, 0.00390625, 0.005)[rng.integers(3)]
+  out = [
+    "<mujoco>",
+    f'  <option timestep="{ts}" integrator="{integrator}" solver="{solver}" cone="{cone}" iterations="{int(rng.choice([30, 60, 100]))}" tolerance="{_fmt(rng.choice([1e-8, 1e-10]))}"/>',
+    "  <worldbody>",
+    f'    <geom name="floor" type="plane" size="0 0 1" {_contact_attrs(rng)}/>',
+  ]
+  act = []
+  for t, kind in enumerate(kinds):
+    x, y = 0.8 * (t % 4) + rng.uniform(-0.1, 0.1), 0.8 * (t // 4) + rng.uniform(-0.1, 0.1)
+    b = f"t{t}"
+    if kind in ("cfree", "ofree"):
+      g, low = _centred_geom(rng, f"g_{b}", True)
+      z = low - rng.uniform(0.0, 0.008) if rng.random() < 0.85 else low + rng.uniform(0.05, 0.3)
+      out.append(f'    <body name="{b}" pos="{_fmt([x, y, z])}">')
+      out.append(f'      <freejoint name="j_{b}"/>')
+      if kind == "cfree" and rng.random() < 0.25:
+        # explicit inertial aligned with the body frame, geom anywhere
+        di = rng.uniform(0.008, 0.015, size=3)  # any triple in this range satisfies the triangle inequality
+        out.append(f'      <inertial pos="0 0 0" mass="{_fmt(rng.uniform(0.3, 3))}" diaginertia="{_fmt(di)}"/>')
+      out.append("      " + g)
+      if kind == "ofree":
+        out.append(f'      <geom name="g2_{b}" type="sphere" size="{_fmt(rng.uniform(0.03, 0.06))}" pos="{_fmt(rng.normal(size=3) * 0.06)}" contype="0" conaffinity="0"/>')
+      out.append("    </body>")
+    elif kind == "cball":
+      g, _ = _centred_geom(rng, f"g_{b}", False)
+      out.append(f'    <body name="{b}" pos="{_fmt([x, y, 0.8])}">')
+      lim = f' limited="true" range="0 {_fmt(rng.uniform(0.5, 3))}"' if rng.random() < 0.7 else ""
+      out.append(f'      <joint name="j_{b}" type="ball"{lim} damping="{_fmt(rng.uniform(0.0, 0.3))}"/>')
+      out.append("      " + g)
+      out.append("    </body>")
+    elif kind == "c1":
+      out.append(f'    <body name="{b}" pos="{_fmt([x, y, 0.8])}">')
+      out.append("      " + _limited_joint(rng, f"j_{b}"))
+      out.append(f'      <geom name="g_{b}" type="box" size="{_fmt(rng.uniform(0.05, 0.12, size=3))}" pos="{_fmt(rng.normal(size=3) * 0.1)}" contype="0" conaffinity="0"/>')
+      out.append("    </body>")
+      act.append(f"j_{b}")
+    elif kind in ("chain", "long"):
+      n = int(rng.integers(2, 6)) if kind == "chain" else int(rng.integers(7, 10))
+      out.append(f'    <body name="{b}" pos="{_fmt([x, y, 1.0])}">')
+      depth = 1
+      for k in range(n):
+        if k:
+          out.append("  " * depth + f'    <body name="{b}_{k}" pos="{_fmt([rng.uniform(0.1, 0.2), 0, 0])}">')
+          depth += 1
+        out.append("  " * depth + "    " + _limited_joint(rng, f"j_{b}_{k}", jt="hinge" if kind == "long" else None, axis=(0, 1, 0) if kind == "long" and k % 2 else None))
+        out.append("  " * depth + "    " + _link_geom(rng, f"g_{b}_{k}"))
+      for k in range(depth):
+        out.append("  " * (depth - k) + "  </body>")
+      act.append(f"j_{b}_{n - 1}")
+    elif kind == "branch":
+      out.append(f'    <body name="{b}" pos="{_fmt([x, y, 1.0])}">')
+      out.append("      " + _limited_joint(rng, f"j_{b}_0"))
+      out.append("      " + _link_geom(rng, f"g_{b}_0"))
+      for k in range(1, int(rng.integers(3, 5))):
+        out.append(f'      <body name="{b}_{k}" pos="{_fmt(rng.normal(size=3) * 0.15)}">')
+        out.append("        " + _limited_joint(rng, f"j_{b}_{k}"))
+        out.append("        " + _link_geom(rng, f"g_{b}_{k}"))
+        out.append("      </body>")
+      out.append("    </body>")
+    elif kind == "big":
+      # star of 11 six-link arms on one root hinge: 67 dofs in one tree, kept well conditioned by joint armature
+      out.append(f'    <body name="{b}" pos="{_fmt([x, y, 1.5])}">')
+      out.append(f'      <joint name="j_{b}_r" type="hinge" axis="0 0 1" armature="0.1"/>')
+      out.append(f'      <geom name="g_{b}_r" type="sphere" size="0.05" contype="0" conaffinity="0"/>')
+      for a in range(11):
+        ang = 2 * np.pi * a / 11
+        for k in range(6):
+          pos = [0.1 * np.cos(ang), 0.1 * np.sin(ang), 0] if k == 0 else [0.1, 0, 0]
+          out.append("  " * k + f'      <body name="{b}_{a}_{k}" pos="{_fmt(pos)}">')
+          lim = ' limited="true" range="-1 1"' if rng.random() < 0.2 else ""
+          out.append("  " * k + f'        <joint name="j_{b}_{a}_{k}" type="hinge" axis="{_fmt((0, 1, 0) if k % 2 else (0, 0, 1))}" armature="0.05" damping="0.05"{lim}/>')
+          out.append("  " * k + f'        <geom name="g_{b}_{a}_{k}" type="capsule" size="0.02" fromto="0 0 0 0.1 0 0" density="500" contype="0" conaffinity="0"/>')
+        for k in range(6):
+          out.append("  " * (5 - k) + "      </body>")
+      out.append("    </body>")
+  out.append("  </worldbody>")
+  if act:
+    out.append("  <actuator>")
+    for k, j in enumerate(act[:3]):
+      if rng.random() < 0.5:
+        out.append(f'    <motor name="a{k}" joint="{j}" gear="{_fmt(rng.uniform(0.5, 3))}"/>')
+      else:
+        out.append(f'    <general name="a{k}" joint="{j}" dyntype="filter" dynprm="{_fmt(rng.uniform(0.02, 0.2))}" gainprm="{_fmt(rng.uniform(0.5, 3))}"/>')
+    out.append("  </actuator>")
+  out.append("  <sensor>")
+  for t in range(len(kinds)):
+    st = ("framelinacc", "frameangacc", "framelinvel", "subtreecom")[rng.integers(4)]
+    out.append(f'    <{st} name="s{t}" ' + (f'body="t{t}"/>' if st == "subtreecom" else f'objtype="body" objname="t{t}"/>'))
+  out.append("  </sensor>")
+  out.append("</mujoco>")
+  return "\n".join(out), kinds
+
+
+def m_blocks(mjm):
+  """[(start, size, kind)] of the diagonal blocks (kinematic trees) of the inertia matrix, kind by coupling pattern."""
+  out = []
+  for adr, num in zip(mjm.tree_dofadr, mjm.tree_dofnum):
+    adr, num = int(adr), int(num)
+    if num <= 0:
+      continue
+    nnz = int(np.sum(mjm.M_rownnz[adr : adr + num]))
+    if nnz == num and num <= 6:
+      kind = "compact"
+    elif nnz == num * (num + 1) // 2 and num <= 6:
+      kind = "triangular"
+    elif num <= 64:
+      kind = "tile"
+    else:
+      kind = "sparse"
+    out.append((adr, num, kind))
+  return out
+
+
+def fresh_data(mjm, m, states, caps, mode, rng_seed=0):
+  """Data that has NOT been through a MuJoCo forward pass, holding `states`."""
+  import mujoco_warp as mjw
+
+  if mode == "make":
+    return mw.make_data(mjm, m, states, **caps)
+  if mode == "reset":
+    # used Data (other states, a few steps) returned to the initial condition by reset_data
+    r = np.random.default_rng([int(rng_seed), 0x5E7])
+    other = [gen.sample_state(mjm, r, vel=0.3, quat_scale=False) for _ in states]
+    for st in other:
+      st["qpos"] = (np.array(mjm.qpos0) + r.normal(size=mjm.nq) * 0.01).astype(np.float32)
+    d = mw.make_data(mjm, m, other, **caps)
+    for _ in range(2):
+      mjw.step(m, d)
+    mjw.reset_data(m, d)
+    mw.set_world_states(m, d, states)
+    return d
+  if mode == "put_raw":
+    import warnings
+
+    mjd = mujoco.MjData(mjm)  # never forwarded
+    with warnings.catch_warnings():
+      warnings.simplefilter("ignore")
+      d = mjw.put_data(mjm, mjd, nworld=len(states), **caps)
+    mw.set_world_states(m, d, states)
+    return d
+  raise ValueError(mode)
 
 
 def cases(tier, seed):
   n = {"quick": (48, 24, 24), "thorough": (1200, 600, 600)}[tier]
   out = []
+  nf = {"quick": 42, "thorough": 900}[tier]
+  for i in range(nf):
+    out.append(
+      {
+        "id": f"forest{seed}_{i}",
+        "kind": "forest",
+        "seed": seed * 100000 + 80000 + i,
+        "integrator": FOREST_INTEGRATORS[i % 7],
+        "data": FOREST_DATA[(i // 7) % 4],
+        "big": bool(i % 13 == 5),
+        "weight": 4 if i % 13 == 5 else 2,
+      }
+    )
   for kind, cnt, off in (("free", n[0], 0), ("soft", n[1], 20000), ("contact", n[2], 40000)):
     for i in range(cnt):
       out.append({"id": f"{kind}{seed}_{i}", "kind": kind, "seed": seed * 100000 + off + i, "integrator": INTEGRATORS[i % 4], "weight": 2 if kind != "free" else 1})
@@ -119,6 +351,15 @@ def build_model(case):
       return None, None, None
     xml, feat = case["path"], ["repo:" + case["path"]]
     mjm.opt.enableflags &= ~int(mujoco.mjtEnableBit.mjENBL_SLEEP)
+  elif kind == "forest":
+    xml, trees = forest_xml(case["seed"], case["integrator"], case.get("big", False))
+    try:
+      mjm = mujoco.MjModel.from_xml_string(xml)
+    except Exception:
+      return None, None, None
+    if not _step.well_conditioned(mjm, limit=1e6 if case.get("big") else 1e5):
+      return None, None, None
+    feat = ["forest_tree:" + t for t in trees] + ["solver:" + ("CG" if mjm.opt.solver == mujoco.mjtSolver.mjSOL_CG else "Newton")]
   else:
     P = {"free": P_FREE, "soft": P_SOFT, "contact": P_CONTACT}[kind]
     xml, mjm, feat, _ = gen.make_model(case["seed"], P, accept=_step.well_conditioned)
@@ -176,16 +417,19 @@ def run_case(case):
   states = []
   for w in range(nworld):
     st = gen.sample_state(mjm, rng, vel=float(rng.choice([0.3, 3.0])), quat_scale=True)
-    if case["kind"] in ("contact",) or (case["kind"] == "repo" and mjm.nbody > 12):
+    if case["kind"] in ("contact", "forest") or (case["kind"] == "repo" and mjm.nbody > 12):
       st["qpos"] = (np.array(mjm.qpos0) + rng.normal(size=mjm.nq) * 0.02).astype(np.float32)
     st["qacc_warmstart"] = (rng.normal(size=mjm.nv) * 3.0).astype(np.float32)
     states.append(st)
   caps = {}
-  if case["kind"] in ("contact", "repo"):
+  if case["kind"] in ("contact", "repo", "forest"):
     caps = dict(njmax=256, nconmax=96)
+  mode = case.get("data", "make")
+  blocks = m_blocks(mjm)
+  is_cg = int(mjm.opt.solver) == int(mujoco.mjtSolver.mjSOL_CG)
 
   # ---- B: forward() does not touch the integration state;  C: forward() twice is identical
-  d = mw.make_data(mjm, m, states, **caps)
+  d = fresh_data(mjm, m, states, caps, mode, case["seed"])
   before = snap(d, STATE_KEYS)
   mjw.forward(m, d)
   after = snap(d, STATE_KEYS)
@@ -212,8 +456,8 @@ def run_case(case):
 
   # ---- A: step1; step2 == step
   if integ != "RK4":
-    da = mw.make_data(mjm, m, states, **caps)
-    db = mw.make_data(mjm, m, states, **caps)
+    da = fresh_data(mjm, m, states, caps, mode, case["seed"])
+    db = fresh_data(mjm, m, states, caps, mode, case["seed"])
     verdict = "bit"
     nsteps = 3
     for k in range(nsteps):
@@ -221,6 +465,18 @@ def run_case(case):
       mjw.step1(m, db)
       mjw.step2(m, db)
       a, b = snap(da, TRAJ_KEYS), snap(db, TRAJ_KEYS)
+      if k == 0:
+        # which kinds of inertia block carried constraint forces in this step (any world)
+        fc = np.abs(a["qfrc_constraint"]).max(axis=0) > 0
+        for start, size, bk in blocks:
+          if fc[start : start + size].any():
+            tag = f"{bk}{'@0' if start == 0 else '@later'}"
+            rec.cover(f"step12_block_constrained[{'CG' if is_cg else 'Newton'}]:{tag}", 1)
+            if is_cg and bk == "compact" and start > 0:
+              rec.cover(f"step12_cg_unforwarded_compact_later:{integ}", 1)
+              rec.cover(f"step12_cg_unforwarded_compact_later[{mode}]", 1)
+            if is_cg and bk != "compact":
+              rec.cover(f"step12_cg_unforwarded_{bk}:{integ}", 1)
       fin = all(np.all(np.isfinite(a[x])) for x in ("qpos", "qvel"))
       if not fin:
         rec.inconcl("trajectory not finite")
@@ -240,6 +496,12 @@ def run_case(case):
   for f in feat:
     rec.cover("features", f)
   rec.cover("kind:" + case["kind"], 1)
+  rec.cover("data_origin:" + mode, 1)
+  rec.cover("solver:" + ("CG" if is_cg else "Newton"), 1)
+  for start, size, bk in blocks:
+    rec.cover(f"inertia_block:{bk}{'@0' if start == 0 else '@later'}", 1)
+  if len({bk for _, _, bk in blocks}) >= 2:
+    rec.cover("inertia_block_kinds_mixed", 1)
   if mjm.nsensor:
     rec.cover("with_sensors", 1)
   if int(mw.npy(d.nefc).max()) > 0:
@@ -250,7 +512,7 @@ def run_case(case):
     rec.cover("unnormalised_quat_states", 1)
   if mjm.nv >= 2:
     rec.nontrivial(xml, integ, *[s["qpos"] for s in states], *[s["qvel"] for s in states])
-  rec.sample = {"kind": case["kind"], "model": case.get("path", f"seed {case['seed']}"), "integrator": integ, "nv": mjm.nv, "na": mjm.na, "nsensor": mjm.nsensor, "nefc_max": int(mw.npy(d.nefc).max()), "nacon": int(mw.npy(d.nacon)[0]), "forward_twice": r}
+  rec.sample = {"kind": case["kind"], "model": case.get("path", f"seed {case['seed']}"), "integrator": integ, "nv": mjm.nv, "na": mjm.na, "nsensor": mjm.nsensor, "nefc_max": int(mw.npy(d.nefc).max()), "nacon": int(mw.npy(d.nacon)[0]), "forward_twice": r, "data": mode, "solver": "CG" if is_cg else "Newton", "blocks": [f"{bk}:{start}+{size}" for start, size, bk in blocks]}
   return rec.result()
 
 
@@ -270,6 +532,17 @@ def requirements(agg, tier):
   for k in ("with_sensors", "forward_twice_constrained", "forward_twice_contacts", "unnormalised_quat_states"):
     if not cov.get(k):
       unmet.append(f"never observed: {k}")
+  for integ in ("Euler", "implicitfast", "implicit"):
+    if cov.get("step12_cg_unforwarded_compact_later:" + integ, 0) < 2:
+      unmet.append(f"step1;step2 vs step on never-forwarded Data with the CG solver and constraint forces on a compact inertia block that does not start at dof 0: fewer than 2 cases for {integ}")
+  for mode in ("make", "reset", "put_raw"):
+    if not cov.get(f"step12_cg_unforwarded_compact_later[{mode}]"):
+      unmet.append(f"never observed: CG + constrained compact block after other trees on Data from '{mode}'")
+  for bk in ("triangular", "tile"):
+    if not any(cov.get(f"step12_cg_unforwarded_{bk}:{integ}") for integ in ("Euler", "implicitfast", "implicit")):
+      unmet.append(f"never observed: CG + constraint forces on a {bk} inertia block")
+  if not cov.get("inertia_block:sparse@0", 0) + cov.get("inertia_block:sparse@later", 0):
+    unmet.append("never observed: a model with a sparse (> 64 dof) inertia block")
   if agg["distinct"] < 30:
     unmet.append("fewer than 30 distinct non-trivial cases")
   return unmet
